@@ -17,7 +17,7 @@ SHARDS = {"quick": 8, "thorough": 16}
 WATCHDOG = {"quick": 1800, "thorough": 10800}
 CASES = {"quick": 170, "thorough": 2500}
 FLOORS = {
-    "quick": dict({"distinct_nontrivial": 400, "K1_evaluations": 1000},
+    "quick": dict({"distinct_nontrivial": 400, "K1_evaluations": 700},
                   **{f"nonempty[{d}]": 25 for d in DETECTORS}),
     "thorough": dict({"distinct_nontrivial": 8000, "K1_evaluations": 15000},
                      **{f"nonempty[{d}]": 300 for d in DETECTORS}),
